@@ -54,6 +54,9 @@ func (fr *Frame) instr(in ssa.Instruction, h Heap) Heap {
 		el := x.Type().(*types.Pointer).Elem()
 		a := &Addr{Base: r, T: el}
 		fr.vals[x] = &Val{T: r, A: a}
+		if !x.Heap && fr.top {
+			fr.private = append(fr.private, privAlloc{ref: r, t: el})
+		}
 		// zero-initialise
 		if at, ok := el.Underlying().(*types.Array); ok {
 			name, srt := g.elemArrName(at.Elem())
